@@ -69,36 +69,38 @@ Theorem C08_fuel : forall nb clauses u t,
 Proof. exact up_unsat_fuel. Qed.
 Print Assumptions C08_fuel.
 
-(* REFUTED at full strength: a tautological line that is RUP is rejected *)
-Theorem C08_complete_refuted_taut :
-  exists (n : nat) (F : cnf) (cert : list clause),
-    (forall c, In c F -> nice_clause n c) /\ (forall c, In c cert -> nice_clause n c) /\
-    rup_chain F cert /\
-    check_cert_reader F (init_units n F) cert = false /\
-    check_cert_chan F (init_units n F) cert = false.
-Proof. exact check_cert_complete_refuted_taut. Qed.
-Print Assumptions C08_complete_refuted_taut.
-
-(* REFUTED at full strength: a clause with a repeated literal is never unit *)
-Theorem C08_complete_refuted_dup :
-  exists (n : nat) (F : cnf) (cert : list clause),
-    cnf_in n F /\ (forall c, In c cert -> nice_clause n c /\ non_taut c) /\
-    rup_chain F cert /\
-    check_cert_reader F (init_units n F) cert = false /\
-    check_cert_chan F (init_units n F) cert = false.
-Proof. exact check_cert_complete_refuted_dup. Qed.
-Print Assumptions C08_complete_refuted_dup.
-
-(* what holds: clauses and lines without repeated literals, literals in
-   range, lines not tautological *)
-Theorem C08_complete_partial : forall early F u0 cert,
+(* Full strength (after the fixes of explain/problem.go -- repeated literal --
+   and explain/check.go -- tautological line): every line that has the RUP
+   property w.r.t. F and the earlier lines is accepted, by both entry points
+   ([check_cert early] is [if early then check_cert_chan else
+   check_cert_reader]).  Lines may be tautologies and F / lines may repeat
+   literals.  The only hypotheses: literals within 1..n (Go panics otherwise)
+   and a [units] array holding only 0/1/-1 (always so after ParseCNF). *)
+Theorem C08_complete : forall early F u0 cert,
   units_ok u0 ->
-  (forall c, In c F -> nice_clause (length u0) c) ->
-  (forall c, In c cert -> nice_clause (length u0) c /\ non_taut c) ->
+  cnf_in (length u0) F ->
+  cnf_in (length u0) cert ->
   rup_chain F cert ->
   check_cert early F u0 cert = true.
 Proof. exact check_cert_complete. Qed.
-Print Assumptions C08_complete_partial.
+Print Assumptions C08_complete.
+
+Theorem C08_complete_problem : forall early pb cert,
+  units_ok (punits pb) ->
+  cnf_in (length (punits pb)) (Clauses pb) ->
+  cnf_in (length (punits pb)) cert ->
+  rup_chain (Clauses pb) cert ->
+  fst (Unsat_gen early pb cert) = true.
+Proof. exact Unsat_gen_complete. Qed.
+Print Assumptions C08_complete_problem.
+
+(* one line: tautologies at once, the others by propagation *)
+Theorem C08_complete_line : forall nb clauses u t line,
+  units_ok u -> cnf_in (length u) clauses -> lits_in (length u) line ->
+  rup clauses line ->
+  fst (check_line nb clauses u t line) = Some true.
+Proof. exact check_line_complete. Qed.
+Print Assumptions C08_complete_line.
 
 (* ---- restore ---- *)
 
@@ -144,18 +146,20 @@ Example C08_ex_subset :
   unsat_subset 2 C08_F false false [[1]; []] = Some [[1; 2]; [-1; 2]; [1; -2]; [-1; -2]].
 Proof. vm_compute. reflexivity. Qed.
 
-Example C08_ex_complete :
-  rup_chain [[1]; [-1; 2]; [-2]] [[]] /\
-  (forall c, In c [[1]; [-1; 2]; [-2]] -> nice_clause 2 c).
+(* the two inputs that refuted completeness before the fixes *)
+Example C08_ex_complete_taut :
+  rup_chain [[1; 2]] [[1; -1]] /\ cnf_in 2 [[1; 2]] /\ cnf_in 2 [[1; -1]] /\
+  check_cert_reader [[1; 2]] (init_units 2 [[1; 2]]) [[1; -1]] = true.
 Proof.
-  split.
-  - simpl. split; [|exact I]. right. exists [-2]. split; [simpl; auto|].
-    intros l [<-|[]]. simpl.
-    apply (up_unit _ _ [-1; 2]); simpl; auto.
-    intros l' [<-|[<-|[]]] Hne; [|congruence]. simpl.
-    apply (up_unit _ _ [1]); simpl; auto. intros l' [<-|[]] H. congruence.
-  - intros c [<-|[<-|[<-|[]]]]; (split; [repeat constructor; simpl; intuition discriminate|]);
-      intros l Hl; simpl in Hl; unfold in_range; intuition (subst; simpl; auto with zarith).
+  split; [exact rup_witness_taut|]. split; [apply range_okb_spec; reflexivity|].
+  split; [apply range_okb_spec; reflexivity|vm_compute; reflexivity].
+Qed.
+
+Example C08_ex_complete_dup :
+  rup_chain [[1; 1]; [-1; 2]; [-1; -2]] [[]] /\ cnf_in 2 [[1; 1]; [-1; 2]; [-1; -2]] /\
+  check_cert_reader [[1; 1]; [-1; 2]; [-1; -2]] (init_units 2 [[1; 1]; [-1; 2]; [-1; -2]]) [[]] = true.
+Proof.
+  split; [exact rup_witness_dup|]. split; [apply range_okb_spec; reflexivity|vm_compute; reflexivity].
 Qed.
 
 Example C08_ex_reusable :
